@@ -153,12 +153,24 @@ func main() {
 	}
 	var wg sync.WaitGroup
 	ch := make(chan int)
+	journal := false
+	if j, ok := p.(interface{ Journal() bool }); ok {
+		journal = j.Journal()
+	}
 	for k := 0; k < w; k++ {
 		wg.Add(1)
+		k := k
 		go func() {
 			defer wg.Done()
 			for i := range ch {
+				if journal {
+					raw, _ := json.Marshal(map[string]interface{}{"input": inputs[i], "idx": i})
+					os.WriteFile(filepath.Join(*out, fmt.Sprintf("inflight_%d.json", k)), raw, 0o644)
+				}
 				obs[i] = safeRun(p, inputs[i])
+			}
+			if journal {
+				os.Remove(filepath.Join(*out, fmt.Sprintf("inflight_%d.json", k)))
 			}
 		}()
 	}
